@@ -15,7 +15,7 @@ import (
 
 func init() {
 	Register("C19", "Decides structural necessary conditions of 'the ordered containers behave like insertion-ordered maps': (del) removal from the order list is control-dependent on the key having been found; (iter) no method mutates the order list while ranging over it; (set) every write that may introduce a key appends it to the order list exactly when it is new, and constructors cannot create duplicates; (sib) the three generated map instances are identical modulo key/value types; (lock) every exported method takes the container's RWMutex in the right mode and releases it by defer; (sep) JSON separators. Does NOT decide full equivalence with a reference dictionary over operation histories.",
-		c19del, c19iter, c19set, c19sib, c11lockRule("C19.lock"), c19sep, c19ctor, mapStoreRule("C19.mapstore"))
+		c19del, c19iter, c19set, c19sib, c11lockRule("C19.lock"), c19sep, c19ctor, mapStoreRule("C19.mapstore"), c19leak)
 }
 
 // container: a struct with fields data (map), order (slice), mx (sync.RWMutex).
@@ -537,4 +537,92 @@ func c19sep(c *core.Ctx) {
 		})
 		c.Check(ok2, R, key, c.P.Pos(d.Decl.Pos()), "separator discipline of "+ct.name+".MarshalJSON", why)
 	}
+}
+
+// c19leak: the containers keep their storage to themselves.
+func c19leak(c *core.Ctx) {
+	const R = "C19.leak"
+	c.Rule(R, "no method of an ordered container (map or set) returns its `order` slice or `data` map itself (or a re-slice of it): the caller could sort, append to or overwrite the storage without the lock, after which iteration order, Has and Len no longer describe one insertion-ordered dictionary. Returned element lists are copies")
+	c.Floor(R, 4)
+	for _, ct := range containers(c, R) {
+		n := 0
+		for _, f := range ct.methods {
+			var strip func(v ssa.Value, depth int) ssa.Value
+			strip = func(v ssa.Value, depth int) ssa.Value {
+				if depth > 4 {
+					return v
+				}
+				switch x := v.(type) {
+				case *ssa.Slice:
+					return strip(x.X, depth+1)
+				case *ssa.ChangeType:
+					return strip(x.X, depth+1)
+				case *ssa.Phi:
+					for _, e := range x.Edges {
+						if s := strip(e, depth+1); isStorageLoad(ct, s) {
+							return s
+						}
+					}
+				}
+				return v
+			}
+			leak := ""
+			pos := f.Pos()
+			for _, b := range f.Blocks {
+				for _, in := range b.Instrs {
+					// results spilled by a deferred unlock are stored to the named/anonymous result slot first
+					var vals []ssa.Value
+					switch x := in.(type) {
+					case *ssa.Return:
+						vals = x.Results
+					case *ssa.Store:
+						if al, ok := x.Addr.(*ssa.Alloc); ok && !al.Heap && isResultSlot(f, al) {
+							vals = []ssa.Value{x.Val}
+						}
+					}
+					for _, v := range vals {
+						if s := strip(v, 0); isStorageLoad(ct, s) {
+							leak = "returns " + s.(*ssa.UnOp).X.(*ssa.FieldAddr).X.Name() + "." + storageName(ct, s)
+							pos = in.Pos()
+						}
+					}
+				}
+			}
+			n++
+			key := ct.name + ":" + f.Name()
+			if leak != "" {
+				c.Bad(R, key, c.P.Pos(pos), ct.name+"."+f.Name(), leak+" itself: the caller shares the container's storage")
+			}
+		}
+		c.OKd(R, ct.name+":methods", "", ct.name, core.F("%d methods, none returns the storage", n))
+	}
+}
+
+func isStorageLoad(ct *container, v ssa.Value) bool {
+	u, ok := v.(*ssa.UnOp)
+	return ok && u.Op == token.MUL && (ct.fieldAddr(u.X, ct.order) || ct.fieldAddr(u.X, ct.data))
+}
+
+func storageName(ct *container, v ssa.Value) string {
+	if ct.fieldAddr(v.(*ssa.UnOp).X, ct.order) {
+		return "order"
+	}
+	return "data"
+}
+
+// isResultSlot: go/ssa spills the results of a function with defers into local slots that are
+// loaded again in the return block.
+func isResultSlot(f *ssa.Function, al *ssa.Alloc) bool {
+	for _, b := range f.Blocks {
+		for _, in := range b.Instrs {
+			if r, ok := in.(*ssa.Return); ok {
+				for _, v := range r.Results {
+					if u, ok := v.(*ssa.UnOp); ok && u.X == al {
+						return true
+					}
+				}
+			}
+		}
+	}
+	return false
 }
